@@ -344,6 +344,41 @@ def _finish_call(call: dict) -> dict:
     return out
 
 
+def _add_siblings(sim: Any, conf: dict | None) -> None:
+    """Other resources served beside `kopfexamples` (no objects of theirs, not announced by CRD objects): the operator's own
+    API discovery at its start sees them; the order of the discovery entries is the scenario's."""
+    if not conf:
+        return
+    from ..sim import fakeapi
+    import random as _random
+    c = sim.cluster
+    sim.kex.subresources = c08.own_subresources("status" in sim.kex.subresources, conf)
+    for n, sib in enumerate(conf.get("siblings") or []):
+        rd = fakeapi.ResourceDef(sib["group"], sib["version"], sib["plural"], sib.get("kind") or f"Sibling{n}",
+                                 namespaced=bool(sib.get("namespaced", True)), subresources=tuple(sib.get("subs") or ()))
+        if rd.key not in c.resources:
+            c.add_resource(rd, announce=False)
+    order = conf.get("order") or "asis"
+    plain = c.discovery
+
+    def discovery(path: str) -> dict | None:
+        d = plain(path)
+        if d is not None and d.get("kind") == "APIResourceList":
+            items = list(d["resources"])
+            if order == "subs-first":
+                items = [i for i in items if "/" in i["name"]] + [i for i in items if "/" not in i["name"]]
+            elif order == "subs-last":
+                items = [i for i in items if "/" not in i["name"]] + [i for i in items if "/" in i["name"]]
+            elif order == "reversed":
+                items.reverse()
+            elif isinstance(order, list) and order[0] == "shuffled":
+                _random.Random(f"{order[1]}:{path}").shuffle(items)
+            d["resources"] = items
+        return d
+
+    c.discovery = discovery     # instance attribute: this cluster only
+
+
 def run_closed(sc: dict, wall_limit: float = 60.0) -> dict:
     from ..sim import observe, scenario, simloop
     holder: dict[str, Any] = {}
@@ -355,6 +390,7 @@ def run_closed(sc: dict, wall_limit: float = 60.0) -> dict:
     async def main() -> dict:
         sim = scenario.Sim(copy.deepcopy(sc))
         holder["sim"] = sim
+        _add_siblings(sim, sc.get("c08_cluster"))
         for h in sc.get("c08_handlers", []):
             _register(sim, h, hcalls)
         with observe.installed(sim.obs), instrumented(sim, pcalls, carried, strays):
@@ -596,6 +632,15 @@ def gen_scenario(rng: Any, i: int) -> dict:
             sc["timeline"].append([12.0 if how == "slip-fin-merge" else 9.0, "fins", "a", []])
         sc["end"] = 20.0
     sc["timeline"].sort(key=lambda e: e[0])
+    # the cluster around the object (its own random stream: the scenario itself stays what it was): other resources beside
+    # `kopfexamples` whose names extend it / are prefixes of it / ..., mostly with the opposite `status` fact
+    import random as _random
+    conf = c08.gen_cluster(_random.Random(f"C08-closed-cluster:{i}"), bool(sc["status_subresource"]))
+    if conf is not None:
+        # (the handlers select `kopfexamples` by name: a namesake in another group/version would be served by them too -- the
+        # differential run has those, with the resource picked by group/version/plural)
+        conf["siblings"] = [sib for sib in conf["siblings"] if sib["plural"] != c08.PLURAL]
+        sc["c08_cluster"] = conf
     return sc
 
 
